@@ -499,6 +499,258 @@ def gen_ops(ctx, rng):
     return tasks, meta
 
 
+# ---------------------------------------------------------------------------------------------------
+# inputs in every memory layout / valid but non-canonical scipy inputs, consumed by every operation
+# ---------------------------------------------------------------------------------------------------
+
+LAYOUTS = ["C", "F", "T", "strided", "negative", "negative-last", "broadcast", "offset", "readonly", "F-readonly", "swapped"]
+CONSUME_SHAPES = {1: (6,), 2: (4, 3), 3: (2, 3, 2), 4: (2, 2, 3, 2)}
+
+
+def reshape_targets(shape):
+    n = int(np.prod(shape))
+    if len(shape) == 1:
+        return [(2, n // 2)]
+    if len(shape) == 2:
+        return [(shape[1], shape[0]), (n,)]
+    if len(shape) == 3:
+        return [(shape[0] * shape[1], shape[2]), (shape[2], shape[1], shape[0])]
+    return [(shape[0] * shape[1], shape[2] * shape[3])]
+
+
+
+def target_spec(rng, fam, nd, dt):
+    """target of asformat for a storage family of rank nd"""
+    if fam == "dense":
+        return {"format": {"factory": "dense", "ndim": nd, "dtype": dt}}
+    if fam in ("csr", "csc", "coo2"):
+        z = np.zeros((2,) * nd, dtype=dt)
+        z[(0,) * nd] = 1
+        return {"like": operand_spec(rng, fam, z)}
+    return {"format": {"factory": fam, "ndim": nd, "dtype": dt}}
+
+
+def consumer_ops(rng, src_fam, nd, dt, a):
+    """every operation that consumes a backend array of storage family `src_fam` holding `a`, with the NumPy result:
+    [(op for the worker, expected ndarray, name)] minus the backend tests' xfail conditions"""
+    ops = []
+    if src_fam == "dense":
+        ops.append(({"op": "to_numpy"}, a, "to_numpy"))
+    if src_fam in ("csr", "csc", "coo2"):
+        ops.append(({"op": "to_scipy"}, a, "to_scipy"))
+    if not xfail("add", [src_fam, src_fam], dt, nd):
+        ops.append(({"op": "add", "other": "self"}, a + a, "add:self"))
+    for j, fam in enumerate(families(nd)):
+        if xfail("add", [src_fam, fam], dt, nd):
+            continue
+        b = rand_dense(rng, a.shape, dt, 0.6)
+        ops.append(({"op": "add", "other": operand_spec(rng, fam, b), "swap": bool(j % 2)}, a + b, f"add:{fam}"))
+    if not xfail("reshape", [src_fam], dt, nd):
+        for to in reshape_targets(a.shape):
+            ops.append(({"op": "reshape", "shape": list(to)}, a.reshape(to), f"reshape:{len(to)}d"))
+    for fam in families(nd):
+        if xfail("asformat", [src_fam, fam], dt, nd) or fam == src_fam == "dense":
+            continue
+        op = dict({"op": "asformat"}, **target_spec(rng, fam, nd, dt))
+        ops.append((op, a, f"asformat:{fam}"))
+        if fam in ("csr", "csc"):
+            ops.append((dict(op, then="to_scipy"), a, f"asformat:{fam}:to_scipy"))
+        if fam == "dense":
+            ops.append((dict(op, then="to_numpy"), a, "asformat:dense:to_numpy"))
+    return ops
+
+
+def scipy_variants(kind, quick):
+    """entry lists (row, col, value) in storage order for a 4 x 5 matrix: valid scipy inputs, canonical or not"""
+    if kind == "csc":   # grouped by column
+        base = [(1, 0), (0, 1), (3, 1), (2, 2), (0, 3), (3, 4)]
+    else:
+        base = [(0, 1), (0, 3), (1, 0), (2, 2), (3, 1), (3, 4)]
+    vals = [1, 2, 3, 4, 5, 6]
+    n = len(base)
+    out = [("canonical", [(r, c, v) for (r, c), v in zip(base, vals)], True)]
+    zero_at = [[0], [n // 2], [n - 1], [0, n - 1], [1, 2]] if quick else [[k] for k in range(n)] + [[0, n - 1], [1, 2], [0, 1, 2, 3, 4], list(range(n))]
+    for zs in zero_at:     # explicitly stored zeros in every position
+        out.append((f"zeros@{','.join(map(str, zs))}", [(r, c, 0 if k in zs else v) for k, ((r, c), v) in enumerate(zip(base, vals))], True))
+    sw = {"csr": [(0, 1), (4, 5)], "csc": [(1, 2), (1, 2)], "coo": [(0, 4), (1, 2)]}[kind]
+    e = [(r, c, v) for (r, c), v in zip(base, vals)]
+    for a_, b_ in sw[:1]:
+        e2 = list(e)
+        e2[a_], e2[b_] = e2[b_], e2[a_]
+        out.append(("unsorted", e2, False))
+    # duplicates: a repeated index (values add up), adjacent and (for COO) far apart; a duplicate pair that cancels to zero
+    d0 = base[0]
+    out.append(("duplicate", [(d0[0], d0[1], 1), (d0[0], d0[1], 10)] + e[1:], False))
+    out.append(("duplicate-cancelling", [(d0[0], d0[1], 3), (d0[0], d0[1], -3)] + e[1:], False))
+    if kind == "coo":
+        out.append(("duplicate-apart", e + [(base[2][0], base[2][1], 10)], False))
+        out.append(("flag-false-but-canonical", list(e), False))    # built from triples: scipy has not checked
+        out.append(("unsorted-zeros", [(r, c, (0 if k == 1 else v)) for k, (r, c, v) in enumerate(e2)], False))
+    return out
+
+
+def entries_dense(entries, shape, dt):
+    a = np.zeros(shape, dtype=dt)
+    for r, c, v in entries:
+        a[r, c] += v
+    return a
+
+
+def risky_input(m):
+    return (m.get("canonical") is False or m.get("parts_layout", "C") != "C"
+            or any(l in ("strided", "negative") for l in (m.get("layouts") or [])))
+
+
+def gen_consume(ctx, rng):
+    tasks, meta = [], {}
+    quick, seed = ctx.quick, ctx.seed
+    k = 0
+    # ---- NumPy inputs: layout x copy x rank, every consumer
+    ranks = (1, 2, 3) if quick else (1, 2, 3, 4)
+    for nd in ranks:
+        dts = [DTYPES[(nd + seed) % len(DTYPES)]] if quick else [DTYPES[(nd + seed) % len(DTYPES)], DTYPES[(nd + seed + 5) % len(DTYPES)], "float64"]
+        for dt in dict.fromkeys(dts):
+            shape = CONSUME_SHAPES[nd]
+            for lay in LAYOUTS:
+                if lay == "swapped" and np.dtype(dt).itemsize == 1:
+                    continue
+                if lay in ("F", "T", "F-readonly", "negative-last") and nd == 1:
+                    continue
+                a = rand_dense(rng, shape, dt, 0.7)
+                a.reshape(-1)[0] = 2          # never all zero
+                if lay == "broadcast":
+                    a = np.broadcast_to(a[0], shape).copy() if nd > 1 else np.full(shape, a[0])
+                ops = consumer_ops(rng, "dense", nd, dt, a)
+                for cp in (None, True, False):
+                    tid = f"use-np-{k}"; k += 1
+                    tasks.append({"id": tid, "kind": "consume", "copy": cp, "ops": [o for o, _e, _n in ops],
+                                  "input": {"via": "numpy-layout", "layout": lay, "shape": list(shape), "dtype": dt, "vals": enc_vals(a)}})
+                    meta[tid] = {"a": a, "ops": ops, "input": f"numpy:{lay}", "nd": nd, "dt": dt, "src_fam": "dense"}
+    # ---- scipy inputs: kind x variant x copy, every consumer
+    for i, kind in enumerate(("csr", "csc", "coo")):
+        fam = {"coo": "coo2"}.get(kind, kind)
+        dts = [DTYPES[(i + seed) % len(DTYPES)]] if quick else [DTYPES[(i + seed) % len(DTYPES)], "float64", "complex64"]
+        for dt in dict.fromkeys(dts):
+            if np.dtype(dt).kind == "u":
+                dt = "int" + dt[4:]      # the cancelling pair needs a signed type
+            for vname, entries, canon in scipy_variants(kind, quick):
+                a = entries_dense(entries, (4, 5), dt)
+                ops = consumer_ops(rng, fam, 2, dt, a)
+                layouts = ["C"] + (["strided"] if vname == "canonical" else [])
+                for lay in layouts:
+                    copies = (None, True, False)
+                    if quick and (not canon or lay != "C"):
+                        # inside the regions of the open findings (these inputs can kill the worker, a restart costs seconds):
+                        # one value of `copy` per variant in the quick tier, rotated by the seed; all three in the thorough tier
+                        copies = (copies[(k + seed) % 3],)
+                    for cp in copies:
+                        tid = f"use-sp-{k}"; k += 1
+                        spec = {"via": "scipy-variant", "kind": kind, "shape": [4, 5], "dtype": dt, "idx_dtype": ["int32", "int64"][(i + seed) % 2],
+                                "entries": [[int(r), int(c), int(v)] for r, c, v in entries], "parts_layout": lay}
+                        if kind != "coo" or vname == "canonical" or vname.startswith("zeros@"):
+                            spec["flag_canonical"] = canon
+                        tasks.append({"id": tid, "kind": "consume", "copy": cp, "ops": [o for o, _e, _n in ops], "input": spec})
+                        meta[tid] = {"a": a, "ops": ops, "input": f"scipy:{kind}:{vname}" + ("" if lay == "C" else f":parts-{lay}"), "nd": 2, "dt": dt,
+                                     "src_fam": fam, "canonical": canon, "parts_layout": lay}
+    # ---- from_constituent_arrays with constituent arrays in every layout
+    for i, (fam, nd) in enumerate((("csf", 2), ("coo", 1), ("dense", 2), ("csf", 3), ("coo", 3))):
+        if quick and i >= 3 and (i + seed) % 2:
+            continue
+        dt = DTYPES[(i + seed + 3) % len(DTYPES)]
+        if np.dtype(dt).kind == "c" and nd == 1:
+            dt = "float32"
+        a = rand_dense(rng, CONSUME_SHAPES[nd], dt, 0.7)
+        a.reshape(-1)[0] = 2
+        src_fam = fam
+        base = operand_spec(rng, fam, a) if fam != "dense" else None
+        if fam == "dense":
+            base = {"via": "arrays", "shape": list(a.shape), "array_kinds": [], "arrays": [], "vals": enc_vals(a),
+                    "format": {"factory": "dense", "ndim": nd, "dtype": dt}}
+        narr = len(base["arrays"]) + 1
+        ops = consumer_ops(rng, src_fam, nd, dt, a)
+        for lay in ("C", "strided", "negative", "offset", "readonly"):
+            for which in (["all"] if lay in ("C", "readonly") else ["all", "values", "first"]):
+                lays = [lay if (which == "all" or (which == "values" and j == narr - 1) or (which == "first" and j == 0)) else "C" for j in range(narr)]
+                if which == "first" and narr == 1:
+                    continue
+                if quick and which != "values" and lay in ("strided", "negative") and (i + seed + len(lay)) % 5:
+                    continue   # a strided pointer / index array usually kills the worker: one family per quick run, all in thorough
+                tid = f"use-ca-{k}"; k += 1
+                tasks.append({"id": tid, "kind": "consume", "ops": [o for o, _e, _n in ops],
+                              "input": dict(base, via="arrays-layout", layouts=lays)})
+                meta[tid] = {"a": a, "ops": ops, "input": f"arrays:{fam}{nd}:{lay}:{which}", "nd": nd, "dt": dt, "src_fam": src_fam, "layouts": lays}
+    return tasks, meta
+
+
+def check_consume(ctx, tasks, meta, res):
+    lean_reqs, lean_after = [], []
+    for t in tasks:
+        m, r = meta[t["id"]], res[t["id"]]
+        a = m["a"]
+        base_case = {"input": m["input"], "copy": t.get("copy"), "dtype": m["dt"], "task": {k: v for k, v in t.items() if k != "id"},
+                     "scipy_canonical": m.get("canonical"), "array_layouts": m.get("layouts"), "parts_layout": m.get("parts_layout")}
+        ctx.case(f"C:consume:{m['input'].split(':')[0]}", {"input": m["input"], "copy": t.get("copy"), "dtype": m["dt"], "vals": enc_vals(a)},
+                 nontrivial=bool(np.count_nonzero(a)))
+        name0 = f"consume:{m['input']}"
+        if crash_or_exc(ctx, name0, base_case, r):
+            continue
+        if "asarray_exc" in r:
+            e = r["asarray_exc"]
+            spec = t["input"]
+            c_contig = (r.get("flags") or {}).get("c")
+            allowed = (spec["via"] == "numpy-layout" and ((t.get("copy") is False and c_contig is False and e["exc"] == "NotImplementedError")
+                                                           or spec["layout"] == "swapped"))
+            if allowed:
+                ctx.count("consume_rejected_inputs", 1)
+            else:
+                fail_c(ctx, name0 + ":asarray", base_case, f"asarray(copy={t.get('copy')}) raised {e['exc']}: {e['msg']}")
+            continue
+        if not r.get("input_unchanged", True):
+            fail_c(ctx, name0, base_case, "an input buffer was modified")
+        if not r.get("x_after", True):
+            fail_c(ctx, name0, base_case, "the backend array changed while it was being used as an operand")
+        if r.get("invalid_free"):
+            fail_c(ctx, name0, base_case, "free() of an input buffer attempted")
+
+        def check_value(case, name, got, shape, dtype, exp):
+            if list(shape) != list(exp.shape) or str(dtype) != str(exp.dtype) or not same(got.reshape(exp.shape) if got.size == exp.size else got, exp):
+                fail_c(ctx, name, case, f"result {got.tolist()!r:.160} (shape {list(shape)}, {dtype}); NumPy on the same values gives {exp.tolist()!r:.160} ({exp.dtype})")
+
+        # the backend array itself must mean the input
+        for (op, exp, oname), out in [(({"op": "x"}, a, "meaning"), {"arr": r["x"]})] + list(zip(m["ops"], r["ops"])):
+            case = dict(base_case, op=oname)
+            name = f"{name0}:{oname}"
+            ctx.case(f"C:consume:{m['input'].split(':')[0]}:{oname.split(':')[0]}", {"input": m["input"], "copy": t.get("copy"), "op": oname, "dtype": m["dt"]},
+                     nontrivial=True)
+            if "exc" in out:
+                fail_c(ctx, name, case, f"raised {out['exc']}: {out['msg']}")
+            elif "np" in out:
+                o = out["np"]
+                check_value(case, name, dec_vals(o["vals"], o["dtype"]), o["shape"], o["dtype"], exp)
+            elif "sp" in out:
+                o = out["sp"]
+                check_value(case, name, dec_vals(o["vals"], o["dtype"]), o["shape"], o["dtype"], exp)
+            else:
+                d = out["arr"]
+                try:
+                    dense, posarr, dup = decode(d)
+                except Exception as e:  # noqa: BLE001
+                    fail_c(ctx, name, case, f"result does not decode: {type(e).__name__}: {e}")
+                    continue
+                if dup:
+                    fail_c(ctx, name, case, "an index is stored twice (the level walk reads the first one; scipy means their sum)")
+                check_index_dtypes(ctx, name, case, d)
+                check_value(case, name, dense, dense.shape, dense.dtype, exp)
+                if oname == "meaning" and posarr.size <= 200:
+                    lean_reqs.append(["c20_todense", d["fmt"], d["shape"], d["arrays"], list(range(1, len(d["vals"]) + 1))])
+                    lean_after.append((case, posarr))
+    outs = ctx.driver.run(lean_reqs)
+    for (case, posarr), o in zip(lean_after, outs):
+        ctx.case("A:todense:consume", {"input": case["input"], "copy": case["copy"]}, nontrivial=True)
+        if o.get("ok") != [int(v) for v in posarr.reshape(-1)]:
+            ctx.fail("A", "levels:todense", case, f"Lean toDense {str(o)[:200]} reference walk {posarr.reshape(-1).tolist()!r:.200}")
+
+
 def fmt_json(levels, order, pos=64, crd=64, dtype="float64"):
     return {"levels": levels, "order": list(order), "pos": pos, "crd": crd, "dtype": dtype}
 
@@ -1207,11 +1459,18 @@ def run(ctx):
         ctx.fail("A", "ownership:edges-in-source", {"code": cfg.get("code"), "needed": cfg.get("full")},
                  f"the keep-alive edges read off the source {cfg.get('code')} are not the ones the ownership theorems need "
                  f"{cfg.get('full')}; the model's history defeating this configuration: {json.dumps(wit)}")
+    use_tasks, use_meta = gen_consume(ctx, rng)
+    # inputs inside the regions of the two open findings (non-canonical scipy operands, non-contiguous constituent arrays) can kill
+    # the worker (out-of-bounds reads in the compiled kernels): they run in a worker of their own, after everything else
+    risky = [t for t in use_tasks if risky_input(use_meta[t["id"]])]
+    safe = [t for t in use_tasks if not risky_input(use_meta[t["id"]])]
+    ctx.notes["consume_tasks"] = {"all": len(use_tasks), "inside_finding_regions": len(risky)}
     tasks = ([{"id": "formats", "kind": "formats", "specs": fmt_specs}, {"id": "determine", "kind": "determine", "cases": det_cases}]
-             + rt_tasks + ord_tasks + op_tasks + own_tasks)
+             + rt_tasks + ord_tasks + op_tasks + safe + own_tasks)
     core.log(f"C20: {len(rt_tasks)} round trips, {len(ord_tasks)} order cases, {len(op_tasks)} operations, {len(det_cases)} format groups, "
              f"{len(own_tasks)} ownership runs")
     res = run_tasks(ctx, tasks, per_batch_deadline=600 if ctx.quick else 3000)
+    res.update(run_tasks(ctx, risky, per_batch_deadline=600 if ctx.quick else 3000))
     ctx.notes["worker_wall_s"] = round(time.time() - t0, 1)
     ctx.notes["op_tasks"] = len(op_tasks)
 
@@ -1220,6 +1479,7 @@ def run(ctx):
     check_roundtrips(ctx, rt_tasks, rt_meta, res)
     check_orders(ctx, ord_tasks, ord_meta, res)
     check_ops(ctx, op_tasks, op_meta, res)
+    check_consume(ctx, use_tasks, use_meta, res)
     reqs, where = [], {}
     for t in own_tasks:
         label, program, pm = own_meta[t["id"]]
@@ -1557,7 +1817,20 @@ def replay(ctx, path):
     case, fam = f.get("case", {}), f.get("family")
     print(f"replaying {fam}: {str(f.get('detail'))[:300]}")
     ctx2 = core.Ctx(PID, obj.get("tier", ctx.tier), int(obj.get("seed", ctx.seed)))
-    if isinstance(case, dict) and "task" in case:
+    if isinstance(case, dict) and isinstance(case.get("task"), dict) and case["task"].get("kind") == "consume":
+        # the expected values live in the generator: rebuild the run's tasks (same rng stream as run()) and pick this one
+        rng = gen.rng_for(ctx2.seed, PID)
+        gen_roundtrips(ctx2, rng); gen_orders(ctx2, rng); gen_ops(ctx2, rng); gen_determine(ctx2, rng)
+        ownership_programs(ctx2, rng); lifetime_programs(ctx2, rng)
+        tasks, meta = gen_consume(ctx2, rng)
+        pick = [t for t in tasks if meta[t["id"]]["input"] == case.get("input") and t.get("copy") == case.get("copy")
+                and meta[t["id"]]["dt"] == case.get("dtype")]
+        if not pick:
+            print("case not in this tier/seed")
+            return 1
+        res = run_tasks(ctx2, pick[:1])
+        check_consume(ctx2, pick[:1], meta, res)
+    elif isinstance(case, dict) and "task" in case:
         t = dict(case["task"], id="replay", kind="op")
         a_specs = t["operands"]
         arrs = [dec_vals(sp["vals"], sp["dtype"]).reshape(sp["shape"]) if sp["via"] in ("numpy", "scipy") else None for sp in a_specs]
